@@ -153,7 +153,7 @@ Section Universe.
 
   Theorem rt_Q m : ty_msg m -> valid_msg m -> Q m.
   Proof.
-    induction m as [e|k r p|k|id m' IH pe|p r|c t|c|t|p r|ref m' IH|ns tok|v|v|v q l|r|d|id tok|tok|s a p m' IH|k|u];
+    induction m as [e|k r p|k|id m' IH pe|id pe|p r|c t|c|t|p r|ref m' IH|ns tok|v|v|v q l|r|d|id tok|tok|s a p m' IH|k|u];
       intros Ht Hv; unfold Q; cbn [kind_of].
     - (* empty *) exists []. split; [reflexivity|]. intros rest [|fuel] Hf; [cbn in Hf; lia|].
       destruct e; reflexivity.
@@ -166,9 +166,16 @@ Section Universe.
       eexists. split.
       { cbn [Msgs.enc_body]. fold enc_body. unfold write_message in Hw. rewrite Hw. cbn [mbind]. rewrite Hp. reflexivity. }
       intros rest [|fuel] Hf; [cbn in Hf; lia|]. cbn [Msgs.dec_body fst snd]. fold dec_body.
-      rewrite <- ?app_assoc. erewrite drun_bind_ok.
-      2:{ apply Hr. rewrite !app_length, !put_lp4_length in Hf. lia. }
+      rt_step. cbv iota. rewrite <- ?app_assoc. erewrite drun_bind_ok.
+      2:{ apply Hr. rewrite !app_length, !put_lp4_length in Hf. cbn [length put_bool] in Hf. lia. }
       do 4 rt_step. rewrite Hback. reflexivity.
+    - (* PipeResult with a nil Message *)
+      destruct Hv as (Hid & Ve).
+      destruct (perr_rt pe Ht Ve) as (c & t & Hp & Hc & Hlt & Hback).
+      eexists. split.
+      { cbn [Msgs.enc_body]. rewrite Hp. reflexivity. }
+      intros rest [|fuel] Hf; [cbn in Hf; lia|]. cbn [Msgs.dec_body fst snd]. fold dec_body.
+      rt_step. cbv iota. do 4 rt_step. rewrite Hback. reflexivity.
     - destruct Hv as [H1 H2]. flat_case Pong_rt.
     - cbn in Ht. flat_case Error_rt.
     - cbn in Ht. flat_case Command_rt.
